@@ -11,7 +11,7 @@ import (
 // GetDeployStatus .
 func (r *Rediaron) GetDeployStatus(ctx context.Context, appname, entryname string) (map[string]int, error) {
 	// 手动加 / 防止不精确
-	key := filepath.Join(workloadDeployPrefix, appname, entryname) + "/*"
+	key := escapeGlob(filepath.Join(workloadDeployPrefix, appname, entryname)) + "/*"
 	data, err := r.getByKeyPattern(ctx, key, 0)
 	if err != nil {
 		return nil, err
